@@ -320,7 +320,7 @@ CLASSES = {
     "one-element-tuple": (cls_single_tuple_trailing_comma, ALL - {"comments"}),
     "sign-of-signed-operand": (cls_nested_unary, ALL - {"comments"}),
     "assignment-as-if-branch": (cls_if_branch_assignment, ALL),
-    "tuple-by-nested-trailing-comma": (cls_tuple_by_nested_trailing_comma, {"ast", "expr"}),
+    "tuple-by-nested-trailing-comma": (cls_tuple_by_nested_trailing_comma, {"ast", "expr", "idem"}),
 }
 
 
@@ -1041,6 +1041,8 @@ def run(ck):
                 S.append(("corpus", c, None))
     n_gen = 3000 if quick else 30000
     n_risky = 500 if quick else 6000
+    if ck.replay:          # replaying one input: only the input, the witnesses and the corpus
+        n_gen = n_risky = 0
     rng = ck.rng.fork("gen")
     for i in range(n_gen):
         S.append(("gen", gen_source(rng.fork("g%d" % i), False), None))
@@ -1050,12 +1052,12 @@ def run(ck):
     try:
         import lmmm
         lr = ck.rng.fork("lmmm")
-        for i in range(60 if quick else 600):
+        for i in range(0 if ck.replay else (60 if quick else 600)):
             p = lmmm.Gen(lr.fork("p%d" % i)).program()
             S.append(("lmmm", lmmm.pp_prog(p), None))
     except Exception as ex:       # the shared generator is optional
         ck.coverage["lmmm_generator"] = "unavailable: " + str(ex)[:100]
-    files = shipped_sources()
+    files = [] if ck.replay else shipped_sources()
     shipped = []
     for f in files:
         try:
